@@ -426,6 +426,10 @@ Definition initial_sequence (k : kernel) : kernel * N :=
 Definition set_isn (k : kernel) (v : N) : kernel :=
   mkk (cfg k) (next_id k) (socks k) (binds k) (conns k) (cursor k) (addrs k) (outb k) v.
 
+(* verif-hooks `set_port_cursor` (ca18603): reposition the ephemeral-port scan start *)
+Definition set_cursor (k : kernel) (v : N) : kernel :=
+  mkk (cfg k) (next_id k) (socks k) (binds k) (conns k) v (addrs k) (outb k) (isn k).
+
 (* tcp.rs `bound_endpoint` *)
 Definition bound_endpoint (s : socket) : sockaddr :=
   match s_bound s with Some b => (bk_addr b, bk_port b) | None => (mkip false 0, 0) end.
@@ -1037,7 +1041,7 @@ Inductive ev :=
 | ENetstat (h : N) | ECounts (h : N)
 | EUdpBind (slot h a port : N) | EUdpSend (slot n a port : N)
 | EUdpConnect (slot a port : N) | EUdpSendC (slot n : N)
-| ESetIsn (h v : N).
+| ESetIsn (h v : N) | ESetCursor (h v : N).
 
 (* Observations are rows of numbers (first row starts with a tag:
    0 ok, 1 error code, 2 pending, 9 no such slot / packet). *)
@@ -1285,6 +1289,11 @@ Definition step (w : world) (e : ev) : world * obs :=
       | Some k => (set_host w h (set_isn k v), [[0]])
       | None => (w, o_none)
       end
+  | ESetCursor h v =>
+      match get_host w h with
+      | Some k => (set_host w h (set_cursor k v), [[0]])
+      | None => (w, o_none)
+      end
   end.
 
 Fixpoint run (w : world) (es : list ev) : world * list obs :=
@@ -1462,7 +1471,7 @@ Inductive oev :=
 | OClose (fd : N)                            (* drop of a handle; also cancelling a pending connect *)
 | OUdpBind (a : sockaddr) | OUdpSend (fd : N) (pl : list N) (dst : sockaddr)
 | OUdpConnect (fd : N) (peer : sockaddr) | OUdpSendC (fd : N) (pl : list N)   (* UdpSocket::connect, send / try_send *)
-| ODeliver (p : packet) | OEgress | OSetIsn (v : N).
+| ODeliver (p : packet) | OEgress | OSetIsn (v : N) | OSetCursor (v : N).
 
 Definition has_tcb_b (k : kernel) (fd : N) : bool :=
   match lookup k fd with Some s => match s_tcb s with Some _ => true | None => false end | None => false end.
@@ -1521,6 +1530,7 @@ Definition ostep (o : okern) (e : oev) : okern :=
   | ODeliver p => mkok (k_deliver k p) (owned o) (acc_log o)
   | OEgress => mkok (fst (k_egress k)) (owned o) (acc_log o)
   | OSetIsn v => mkok (set_isn k v) (owned o) (acc_log o)
+  | OSetCursor v => mkok (set_cursor k v) (owned o) (acc_log o)
   end.
 
 Definition orun (o : okern) (es : list oev) : okern := fold_left ostep es o.
